@@ -644,7 +644,8 @@ class Gen:
         w("}")
         w("} // namespace drv")
         w(MAIN_CODE)
-        return "\n".join(self.lines) + "\n"
+        # the byte type of the views is a build parameter (-DRT_BYTE=char); the generated text spells it `unsigned char`
+        return ("\n".join(self.lines) + "\n").replace("unsigned char", "rt::byte_t")
 
 
 VISITOR_CODE = r'''
